@@ -394,20 +394,47 @@ pub fn run(rep: &mut Report) {
     rep.rule = "a battery of (sketcher type, parameters, entry point, input) cases covering every public sketcher (4 ProbMinHash variants x entry points incl. std HashMap, ProbOrdMinHash2 with 2 hashers incl. reused instance, SuperMinHash f32/f64/NoHash, SuperMinHash2 u64/u32, SetSketch 6 tuples, Opt/RevOpt densification all views) is digested (bit patterns) by: (i) two passes in the main thread, (ii) 16 threads released by a barrier, each constructing its own instances, (iii) child processes (different ASLR, RandomState keys, thread_rng state), cold processes whose 16 threads start at once, and 31 pairs of configurations that differ in exactly one parameter, each run in new processes in the orders A B / B A / A A B / B B A (the digest of a configuration must not depend on what ran before). All digests of a case must agree. Distinct = battery cases; non-trivial = all (each involves randomised hashing of >= 1 item)".into();
     let seed = subseed(rep.seed, "C12/battery", &[]);
     let size = battery_size(rep.tier);
-    // canary: the battery once in a child process. If the code under test kills the process (abort, segmentation fault) the
-    // monitor itself must survive to report it: no sketch at all is not "the same sketch".
+    // canaries: the battery in four child processes before anything runs in the monitor process. If the code under test kills a
+    // process (abort, segmentation fault) or already gives different digests in different processes, the monitor reports that and
+    // stops: it must not run such code in its own address space (it would die before it could report).
     {
+        use std::os::unix::process::ExitStatusExt;
         let exe = std::env::current_exe().unwrap();
-        match std::process::Command::new(&exe).args(["child", "c12", &seed.to_string(), &size.to_string()]).env("RUST_BACKTRACE", "0").stdout(std::process::Stdio::null()).stderr(std::process::Stdio::null()).status() {
-            Ok(st) if st.success() => rep.count("processes.canary_ok", 1),
-            Ok(st) => {
-                use std::os::unix::process::ExitStatusExt;
-                rep.evaluations += 1;
-                rep.distinct.insert(1);
-                rep.violation("C12/process-crash", "battery", format!("a child process that runs the battery once dies (exit code {:?}, signal {:?}) instead of producing the sketches", st.code(), st.signal()), json!({"canary": true}));
-                return;
+        let kids: Vec<_> = (0..4)
+            .map(|_| std::process::Command::new(&exe).args(["child", "c12", &seed.to_string(), &size.to_string()]).env("RUST_BACKTRACE", "0").stdout(std::process::Stdio::piped()).stderr(std::process::Stdio::null()).spawn())
+            .collect();
+        let mut outs: Vec<Vec<(String, u64)>> = Vec::new();
+        let mut decided = false;
+        for (i, k) in kids.into_iter().enumerate() {
+            match k.and_then(|k| k.wait_with_output()) {
+                Ok(o) if o.status.success() => {
+                    let text = String::from_utf8_lossy(&o.stdout);
+                    outs.push(text.lines().filter_map(|l| l.strip_prefix("CASE ")).filter_map(|r| r.split_once(' ')).map(|(d, n)| (n.to_string(), u64::from_str_radix(d, 16).unwrap_or(0))).collect());
+                }
+                Ok(o) => {
+                    rep.evaluations += 1;
+                    rep.distinct.insert(1);
+                    rep.violation("C12/process-crash", "battery", format!("canary child process {} that runs the battery once dies (exit code {:?}, signal {:?}) instead of producing the sketches", i, o.status.code(), o.status.signal()), json!({"canary": i}));
+                    decided = true;
+                }
+                Err(e) => rep.inconclusive.push(format!("canary child could not be run: {}", e)),
             }
-            Err(e) => rep.inconclusive.push(format!("canary child could not be run: {}", e)),
+        }
+        rep.count("processes.canaries_completed", outs.len() as u64);
+        if !decided && outs.len() >= 2 {
+            for (i, o) in outs.iter().enumerate().skip(1) {
+                if let Some(((n0, d0), (_, d1))) = outs[0].iter().zip(o.iter()).find(|(a, b)| a != b) {
+                    rep.evaluations += o.len() as u64;
+                    rep.distinct.insert(fnv64(n0.as_bytes()));
+                    let fam = n0.split('/').next().unwrap_or("?").to_string();
+                    rep.violation(&format!("C12/{}", fam), "battery", format!("case {} is not reproducible: canary child process {} gives {:#x}, canary child process 0 gives {:#x}", n0, i, d1, d0), json!({"case": n0}));
+                    decided = true;
+                    break;
+                }
+            }
+        }
+        if decided {
+            return;
         }
     }
     let reference = battery(seed, size);
